@@ -34,6 +34,14 @@ func Init(job string) (*LQClient, error) {
 		return nil, err
 	}
 
+	// A row that is still CLAIMED when the queue is opened was handed out by a previous run of this job
+	// that was killed, or stopped while the row sat in the consumer's buffer: nothing holds it any more.
+	// Make it available again, otherwise it is never crawled and never deleted.
+	if _, err := dbWrite.Exec("UPDATE urls SET status = 'FRESH', timestamp = strftime('%s', 'now') WHERE status = 'CLAIMED'"); err != nil {
+		logger.Error("error resetting claimed URLs", "err", err.Error(), "func", "lq.Init")
+		return nil, err
+	}
+
 	dbWriteSqlc := sqlc_model.New(dbWrite)
 
 	return &LQClient{
